@@ -231,6 +231,16 @@ def run_c19(tier, seed, replay):
             cases += list(G.gen_ranges(rng, [layout], ks[:1], lens_r, "nar%d_%d_%d_" % layout, strings_cap=4))
             for i in range(6 if tier == "quick" else 40):
                 cases.append(G.rand_history(rng, "nah%d_%d_%d_%d" % (layout + (i,)), layout, ks, 150, 20, ranges=True, clones=True))
+        # the capacity boundary of every stack backend for every layout, also where not even one element fits: the stated
+        # capacity, pushes up to it, one push beyond it
+        for layout in lays:
+            for bk, tr in stack_kinds:
+                cap = G.kind_cap(bk, layout[0])
+                if cap is None or cap < 0: continue
+                c = G.Case("nab%d_%d_%d_%s" % (layout + (bk.replace(":", "_"),)), layout)
+                c.new(0, bk, tr); c.add("info 0")
+                for _ in range(min(cap, 3) + 1): c.add("push 0 w0")
+                c.add("probe 0"); c.finish([0]); cases.append(c)
     finally:
         G.setup3 = saved
     for c in cases:
